@@ -706,3 +706,33 @@ def run(index, rep, tier):
             rep.check(on_add == off_dis and bool(on_add), "R09.21", m.qualname, "off-branch does not discard what the on-branch adds", fn_where(m), "%s: on adds %s, off discards the same" % (name, sorted(on_add)),
                       "%s adds %s when switched on but discards %s when switched off: the mode cannot be switched back, so once a CHARSET statement has made `-` a token (or an interleaved matrix has made line ends tokens) it stays one for the rest of the document - a later negative number is read as two tokens" % (m.qualname, sorted(on_add), sorted(off_dis)))
         rep.floor("R09.21", "mode setters of the NEXUS tokenizer", 2, nset)
+
+    # ---- R09.22 data written into an XML attribute is escaped
+    with rep.section("R09.22"):
+        rep.rule("R09.22", "data written into an XML attribute is escaped: in the NeXML writer a quoted placeholder of an attribute (`name=\"%s\"`) is filled from identifiers the writer generates itself (id maps, _get_nexml_id) or constants; a value that comes from the data (a state's symbol, a label, a value) goes through _protect_attr instead, which quotes and escapes it - a state symbol `<` or `&` written raw makes the document ill-formed and the matrix unreadable")
+        DATA_ATTRS = {"symbol", "label", "value", "description", "name", "symbol_synonyms"}
+        n22 = 0
+        for fi in index.functions_in_module(DIO + "nexmlwriter"):
+            for b in ast.walk(fi.node):
+                if not (isinstance(b, ast.BinOp) and isinstance(b.op, ast.Mod) and isinstance(b.left, ast.Constant) and isinstance(b.left.value, str)):
+                    continue
+                tmpl = b.left.value
+                args = list(b.right.elts) if isinstance(b.right, ast.Tuple) else [b.right]
+                import re as _re
+                phs = [m_ for m_ in _re.finditer(r"%(?:\([^)]*\))?[-#0 +]*\d*(?:\.\d+)?[sdrfg%]", tmpl)]
+                phs = [m_ for m_ in phs if not m_.group(0).endswith("%%") and m_.group(0) != "%%"]
+                if len(phs) != len(args):
+                    continue
+                for m_, a in zip(phs, args):
+                    quoted = tmpl[max(0, m_.start() - 2):m_.start()] == '="'
+                    if not quoted:
+                        continue
+                    n22 += 1
+                    data = [x for x in ast.walk(a) if isinstance(x, ast.Attribute) and x.attr in DATA_ATTRS and isinstance(x.ctx, ast.Load)]
+                    # inside a call of _protect_attr the value is escaped (and brings its own quotes: then the template must not quote again - other rule)
+                    prot = [c for c in ast.walk(a) if isinstance(c, ast.Call) and call_name(c) in ("_protect_attr", "escape", "quoteattr")]
+                    inside = lambda x: any(any(y is x for y in ast.walk(c)) for c in prot)
+                    bad = [x for x in data if not inside(x)]
+                    rep.check(not bad, "R09.22", fi.qualname, "`%s` written raw into the attribute `%s`" % (norm(bad[0]) if bad else "", tmpl[max(0, m_.start() - 12):m_.start()].split()[-1] if bad else ""), fn_where(fi, b), "%s: attribute placeholders filled with identifiers or escaped values" % fi.name,
+                              "%s fills the attribute `%s%s` from `%s` without escaping: a value that contains `<`, `&` or a double quote (a state symbol of a standard alphabet, say) makes the NeXML document ill-formed - the reader fails with an XML ParseError and the matrix does not come back" % (fi.qualname, tmpl[max(0, m_.start() - 12):m_.start()].split()[-1] if bad else "", "%s", norm(bad[0]) if bad else ""))
+        rep.floor("R09.22", "quoted attribute placeholders in the NeXML writer", 10, n22)
